@@ -457,3 +457,29 @@ package pubsub
 //@ func (*service).HandleMessage
 //@   requires s != nil
 //@   assumes msg != nil ==> ifaceptr(msg) != nil
+
+// ---------------------------------------------------------------------------------------------
+// C17: eviction keeps the stream record consistent with its counter: a visited stream record whose
+// pattern count was lowered for the evicted space no longer lists that space (otherwise closing the
+// stream later withdraws the same patterns from the space trie a second time - refcounts that belong
+// to other members' streams). The eviction predicate is an arbitrary pure callback.
+// (the stream pool keeps its own state; its tag removal does not write the pub/sub service's records)
+//@ func iface streampool.StreamPool.RemoveTagsById
+//@   modifies nothing
+//@ func (*service).evictSpaceStreams
+//@   requires s != nil && s.pool != nil && evict != nil
+//@   callback evict modifies nothing
+//@   assumes s.streams != nil
+//@   assumes forall k int :: (k in s.streams) ==> s.streams[k] != nil && s.streams[k].bySpace != nil
+//@   assumes forall k string :: (k in s.remote) && s.remote[k] != nil ==> s.remote[k].trie != nil
+//@   ensures [lowered_count_means_space_dropped] forall k int :: (k in s.streams) && old(k in s.streams) && s.streams[k].total != old(s.streams[k].total) ==> !(spaceId in s.streams[k].bySpace)
+//@   loop 0:
+//@     invariant forall k int :: (k in s.streams) ==> old(k in s.streams) && s.streams[k] == old(s.streams[k]) && s.streams[k] != nil && s.streams[k].bySpace != nil && s.streams[k].bySpace == old(s.streams[k].bySpace)
+//@     invariant [lowered_count_means_space_dropped] forall k int :: (k in s.streams) && s.streams[k].total != old(s.streams[k].total) ==> !(spaceId in s.streams[k].bySpace)
+//@     invariant si == nil || si.trie != nil
+//@     invariant s.pool != nil && s.streams != nil && s.streams == old(s.streams)
+//@   loop 1:
+//@     invariant forall k int :: (k in s.streams) ==> old(k in s.streams) && s.streams[k] == old(s.streams[k]) && s.streams[k] != nil && s.streams[k].bySpace != nil && s.streams[k].bySpace == old(s.streams[k].bySpace)
+//@     invariant [others_untouched_while_one_stream_is_evicted] forall k int :: (k in s.streams) && s.streams[k] != strm && s.streams[k].total != old(s.streams[k].total) ==> !(spaceId in s.streams[k].bySpace)
+//@     invariant si == nil || si.trie != nil
+//@     invariant s.pool != nil && s.streams != nil && s.streams == old(s.streams) && strm != nil && strm.bySpace != nil
